@@ -59,4 +59,443 @@ theorem UInv.mono {now now' : Nat} {U : User} (h : UInv now U) (hle : now ≤ no
   have := h.retry e t he ht
   exact ⟨this.1, by omega, this.2.2⟩
 
+/-! ### every per-user step preserves the invariant -/
+
+syntax "uinv_auto" : tactic
+macro_rules
+  | `(tactic| uinv_auto) => `(tactic|
+      (constructor <;>
+        (try simp_all [User.queue, User.flagsOf, User.pending, specFlags_append, specFrames_append, edge]) <;>
+        (try grind)))
+
+theorem UInv.track {now : Nat} {U : User} (h : UInv now U) (f : Flags) : UInv now (U.track f) := by
+  have ⟨h1, h2, h3, h4, h5, h6, h7, h8, h9, h10⟩ := h
+  unfold User.track
+  cases he : U.entry <;> uinv_auto
+
+theorem UInv.untrack {now : Nat} {U : User} (h : UInv now U) (f : Flags) : UInv now (U.untrack f) := by
+  have ⟨h1, h2, h3, h4, h5, h6, h7, h8, h9, h10⟩ := h
+  unfold User.untrack
+  cases he : U.entry with
+  | some e => uinv_auto
+  | none =>
+    have hf : specFlags U.processed = Flags.empty := by simpa [User.flagsOf, he] using h2.symm
+    have ha : ({ add := false, flag := f } : Req).apply Flags.empty = Flags.empty := by simp [Req.apply]
+    constructor <;>
+      (try simp_all [User.queue, User.flagsOf, User.pending, specFlags_append, specFrames_append, edge])
+
+theorem UInv.retryFires {now : Nat} {U : User} (h : UInv now U) (t : Nat) : UInv now (U.retryFires t) := by
+  have ⟨h1, h2, h3, h4, h5, h6, h7, h8, h9, h10⟩ := h
+  unfold User.retryFires
+  split
+  · exact h
+  · split
+    · exact h
+    · split
+      · uinv_auto
+      · exact h
+
+/-- the done-callback of a finished worker never removes a live entry: the entry it belonged to was
+removed when the worker returned, and newer entries have newer identities -/
+theorem UInv.reap {now : Nat} {U : User} (h : UInv now U) (g : Nat) : UInv now (U.reap g) := by
+  have ⟨h1, h2, h3, h4, h5, h6, h7, h8, h9, h10⟩ := h
+  unfold User.reap
+  split
+  · cases he : U.entry with
+    | none => uinv_auto
+    | some e =>
+      have : e.gen ≠ g := by grind
+      simp only [this, if_false]
+      uinv_auto
+  · exact h
+
+theorem UInv.close {now : Nat} {U : User} (h : UInv now U) : UInv now U.close := by
+  have ⟨h1, h2, h3, h4, h5, h6, h7, h8, h9, h10⟩ := h
+  unfold User.close
+  cases he : U.entry <;> uinv_auto
+
+theorem UInv.take {now : Nat} {U : User} {e : Entry} {r : Req} {q : List Req} (h : UInv now U)
+    (he : U.entry = some e) (hpc : e.pc = .idle) (hq : e.queue = r :: q) : UInv now (U.take e r q) := by
+  have ⟨h1, h2, h3, h4, h5, h6, h7, h8, h9, h10⟩ := h
+  have hl : U.processed ++ [r] ++ q = U.issued := by
+    rw [← h1]; simp [User.queue, he, hq]
+  have hf : specFlags U.processed = e.flags := by simpa [User.flagsOf, he] using h2.symm
+  have hfl : specFlags (U.processed ++ [r]) = r.apply e.flags := by rw [specFlags_append, hf]
+  have hfr : specFrames (U.processed ++ [r]) = U.frames ++ edge e.flags r := by
+    rw [specFrames_append, hf, h3]
+  unfold User.take User.loopOrExit User.exit
+  simp only []
+  split
+  · split
+    · uinv_auto
+    · split
+      · uinv_auto
+      · uinv_auto
+  · split
+    · uinv_auto
+    · uinv_auto
+
+theorem UInv.failAttempt {now : Nat} {U : User} {e : Entry} (h : UInv now U) (he : U.entry = some e)
+    (hpc : e.pc = .sendAdd ∨ ∃ d, e.pc = .waitResp d) (o : Outcome) (ho : o ≠ .exists) (delay : Nat)
+    (hd : delay = retryNetError ∨ delay = retryNonExisting) : UInv now (U.failAttempt e now o delay) := by
+  have ⟨h1, h2, h3, h4, h5, h6, h7, h8, h9, h10⟩ := h
+  have hne := h6 e he hpc
+  unfold User.failAttempt
+  uinv_auto
+
+theorem UInv.succeed {now : Nat} {U : User} {e : Entry} (h : UInv now U) (he : U.entry = some e)
+    (hpc : ∃ d, e.pc = .waitResp d) : UInv now (U.succeed e) := by
+  have ⟨h1, h2, h3, h4, h5, h6, h7, h8, h9, h10⟩ := h
+  have hne := h6 e he (Or.inr hpc)
+  unfold User.succeed
+  uinv_auto
+
+theorem UInv.afterRemove {now : Nat} {U : User} {e : Entry} (h : UInv now U) (he : U.entry = some e)
+    (hpc : e.pc = .sendRemove) : UInv now (U.afterRemove e) := by
+  have ⟨h1, h2, h3, h4, h5, h6, h7, h8, h9, h10⟩ := h
+  have hne := h7 e he hpc
+  unfold User.afterRemove User.loopOrExit User.exit
+  simp only []
+  split
+  · uinv_auto
+  · uinv_auto
+
+theorem UInv.sendOk {now : Nat} {U : User} {e : Entry} (h : UInv now U) (he : U.entry = some e)
+    (hpc : e.pc = .sendAdd) (d : Nat) : UInv now { U with entry := some { e with pc := .waitResp d } } := by
+  have ⟨h1, h2, h3, h4, h5, h6, h7, h8, h9, h10⟩ := h
+  have hne := h6 e he (Or.inl hpc)
+  uinv_auto
+
+/-- every failure branch of `_request_tracking` returns one of the two module constants (regenerated) -/
+theorem delays_documented :
+    (delaySendFail = retryNetError ∨ delaySendFail = retryNonExisting) ∧
+    (delayTimeout = retryNetError ∨ delayTimeout = retryNonExisting) ∧
+    (delayError = retryNetError ∨ delayError = retryNonExisting) ∧
+    (delayNotExists = retryNetError ∨ delayNotExists = retryNonExisting) := by decide
+
+theorem UInv.worker {now : Nat} {U : User} (h : UInv now U) (env : Env) : UInv now (U.worker now env) := by
+  unfold User.worker
+  split
+  · exact h
+  · next e he =>
+    split
+    · split
+      · exact h
+      · next r q hq => exact h.take he (by assumption) hq
+    · exact h.sendOk he (by assumption) _
+    · exact h.failAttempt he (Or.inl (by assumption)) _ (by decide) _ delays_documented.1
+    · exact h.succeed he ⟨_, by assumption⟩
+    · exact h.failAttempt he (Or.inr ⟨_, by assumption⟩) _ (by decide) _ delays_documented.2.2.2
+    · exact h.failAttempt he (Or.inr ⟨_, by assumption⟩) _ (by decide) _ delays_documented.2.2.1
+    · split
+      · exact h.failAttempt he (Or.inr ⟨_, by assumption⟩) _ (by decide) _ delays_documented.2.1
+      · exact h
+    · exact h.afterRemove he (by assumption)
+    · exact h.afterRemove he (by assumption)
+    · exact h
+
+/-! ### the whole state -/
+
+def Inv (s : State) : Prop := ∀ u, UInv s.now (s.users u)
+
+theorem Inv.init : Inv State.init := fun _ => UInv.init _
+
+theorem Inv.upd {s : State} (h : Inv s) (u : Nat) {U : User} (hU : UInv s.now U) : Inv (s.upd u U) := by
+  intro v
+  by_cases hv : v = u
+  · simpa [State.upd, hv] using hU
+  · simpa [State.upd, hv] using h v
+
+theorem Inv.step {s : State} (h : Inv s) (op : Op) : Inv (step s op) := by
+  cases op with
+  | track u f => exact h.upd u ((h u).track f)
+  | untrack u f => exact h.upd u ((h u).untrack f)
+  | workerStep u env => exact h.upd u ((h u).worker env)
+  | reap u g => exact h.upd u ((h u).reap g)
+  | retryFires u => exact h.upd u ((h u).retryFires _)
+  | serverClosed => intro v; exact (h v).close
+  | advance dt => intro v; exact (h v).mono (Nat.le_add_right _ _)
+
+theorem Inv.run {s : State} (h : Inv s) (ops : List Op) : Inv (run s ops) := by
+  induction ops generalizing s with
+  | nil => exact h
+  | cons op ops ih => exact ih (h.step op)
+
+theorem inv_reach (ops : List Op) : Inv (run State.init ops) := Inv.init.run ops
+
+theorem run_append (s : State) (a b : List Op) : run s (a ++ b) = run (run s a) b := by
+  simp [run, List.foldl_append]
+
+/-! ### retry requests come from timers only (calls name at least one reason) -/
+
+theorem loopOrExit_ghost (U : User) (e : Entry) :
+    (U.loopOrExit e).issued = U.issued ∧ (U.loopOrExit e).fired = U.fired := by
+  unfold User.loopOrExit User.exit
+  split <;> exact ⟨rfl, rfl⟩
+
+theorem take_ghost (U : User) (e : Entry) (r : Req) (q : List Req) :
+    (U.take e r q).issued = U.issued ∧ (U.take e r q).fired = U.fired := by
+  unfold User.take
+  simp only []
+  split
+  · split
+    · exact ⟨rfl, rfl⟩
+    · exact loopOrExit_ghost _ _
+  · split <;> exact ⟨rfl, rfl⟩
+
+theorem worker_ghost (U : User) (now : Nat) (env : Env) :
+    (U.worker now env).issued = U.issued ∧ (U.worker now env).fired = U.fired := by
+  unfold User.worker
+  split
+  · exact ⟨rfl, rfl⟩
+  · split
+    · split
+      · exact ⟨rfl, rfl⟩
+      · exact take_ghost _ _ _ _
+    · exact ⟨rfl, rfl⟩
+    · exact ⟨rfl, rfl⟩
+    · exact ⟨rfl, rfl⟩
+    · exact ⟨rfl, rfl⟩
+    · exact ⟨rfl, rfl⟩
+    · split <;> exact ⟨rfl, rfl⟩
+    · exact loopOrExit_ghost _ _
+    · exact loopOrExit_ghost _ _
+    · exact ⟨rfl, rfl⟩
+
+def RInv (U : User) : Prop := (U.issued.filter Req.isRetry).length = U.fired
+
+theorem RInv.track {U : User} (h : RInv U) {f : Flags} (hf : f ≠ Flags.empty) : RInv (U.track f) := by
+  unfold RInv at *
+  unfold User.track
+  cases he : U.entry <;> simp [List.filter_append, Req.isRetry, hf, h]
+
+theorem RInv.untrack {U : User} (h : RInv U) {f : Flags} (hf : f ≠ Flags.empty) : RInv (U.untrack f) := by
+  unfold RInv at *
+  unfold User.untrack
+  cases he : U.entry <;> simp [List.filter_append, Req.isRetry, hf, h]
+
+theorem RInv.worker {U : User} (h : RInv U) (now : Nat) (env : Env) : RInv (U.worker now env) := by
+  unfold RInv at *
+  rw [(worker_ghost U now env).1, (worker_ghost U now env).2]; exact h
+
+theorem RInv.retryFires {U : User} (h : RInv U) (now : Nat) : RInv (U.retryFires now) := by
+  unfold RInv at *
+  unfold User.retryFires
+  repeat' split
+  all_goals first | exact h | simp [List.filter_append, Req.isRetry, retryReq, h]
+
+theorem RInv.reap {U : User} (h : RInv U) (g : Nat) : RInv (U.reap g) := by
+  unfold RInv at *
+  unfold User.reap
+  repeat' split
+  all_goals exact h
+
+theorem RInv.close (U : User) : RInv U.close := by simp [RInv, User.close]
+
+theorem rinv_step {s : State} (h : ∀ u, RInv (s.users u)) (op : Op) (hop : op.flagOk = true) :
+    ∀ u, RInv ((step s op).users u) := by
+  intro v
+  cases op with
+  | track u f =>
+    have hf : f ≠ Flags.empty := by simpa [Op.flagOk] using hop
+    by_cases hv : v = u
+    · simpa [step, State.upd, hv] using (h u).track hf
+    · simpa [step, State.upd, hv] using h v
+  | untrack u f =>
+    have hf : f ≠ Flags.empty := by simpa [Op.flagOk] using hop
+    by_cases hv : v = u
+    · simpa [step, State.upd, hv] using (h u).untrack hf
+    · simpa [step, State.upd, hv] using h v
+  | workerStep u env =>
+    by_cases hv : v = u
+    · simpa [step, State.upd, hv] using (h u).worker s.now env
+    · simpa [step, State.upd, hv] using h v
+  | reap u g =>
+    by_cases hv : v = u
+    · simpa [step, State.upd, hv] using (h u).reap g
+    · simpa [step, State.upd, hv] using h v
+  | retryFires u =>
+    by_cases hv : v = u
+    · simpa [step, State.upd, hv] using (h u).retryFires s.now
+    · simpa [step, State.upd, hv] using h v
+  | serverClosed => exact RInv.close _
+  | advance dt => exact h v
+
+theorem rinv_run {s : State} (h : ∀ u, RInv (s.users u)) (ops : List Op) (hops : ∀ op ∈ ops, op.flagOk = true) :
+    ∀ u, RInv ((run s ops).users u) := by
+  induction ops generalizing s with
+  | nil => exact h
+  | cons op ops ih =>
+    exact ih (rinv_step h op (hops op (by simp))) (fun o ho => hops o (by simp [ho]))
+
+theorem rinv_reach (ops : List Op) (hops : ∀ op ∈ ops, op.flagOk = true) (u : Nat) :
+    RInv ((run State.init ops).users u) :=
+  rinv_run (fun _ => by simp [RInv, State.init, User.init]) ops hops u
+
+/-! ### after a close nothing happens until somebody calls -/
+
+/-- no entry, empty history -/
+def Dropped (U : User) : Prop :=
+  U.entry = none ∧ U.issued = [] ∧ U.processed = [] ∧ U.frames = [] ∧ U.events = [] ∧ U.outcomes = []
+
+theorem Dropped.close (U : User) : Dropped U.close := by simp [Dropped, User.close]
+
+theorem Dropped.worker {U : User} (h : Dropped U) (now : Nat) (env : Env) : U.worker now env = U := by
+  unfold User.worker; simp [h.1]
+
+theorem Dropped.retryFires {U : User} (h : Dropped U) (now : Nat) : U.retryFires now = U := by
+  unfold User.retryFires; simp [h.1]
+
+theorem Dropped.reap {U : User} (h : Dropped U) (g : Nat) : Dropped (U.reap g) := by
+  unfold User.reap
+  obtain ⟨h1, h2, h3, h4, h5, h6⟩ := h
+  split
+  · simp [Dropped, h1, h2, h3, h4, h5, h6]
+  · exact ⟨h1, h2, h3, h4, h5, h6⟩
+
+theorem dropped_step {s : State} (h : ∀ u, Dropped (s.users u)) (op : Op) (hop : op.isCall = false) :
+    ∀ u, Dropped ((step s op).users u) := by
+  intro v
+  cases op with
+  | track u f => simp [Op.isCall] at hop
+  | untrack u f => simp [Op.isCall] at hop
+  | workerStep u env =>
+    by_cases hv : v = u
+    · simpa [step, State.upd, hv, (h u).worker] using h u
+    · simpa [step, State.upd, hv] using h v
+  | reap u g =>
+    by_cases hv : v = u
+    · simpa [step, State.upd, hv] using (h u).reap g
+    · simpa [step, State.upd, hv] using h v
+  | retryFires u =>
+    by_cases hv : v = u
+    · simpa [step, State.upd, hv, (h u).retryFires] using h u
+    · simpa [step, State.upd, hv] using h v
+  | serverClosed => exact Dropped.close _
+  | advance dt => exact h v
+
+theorem dropped_run {s : State} (h : ∀ u, Dropped (s.users u)) (ops : List Op)
+    (hops : ∀ op ∈ ops, op.isCall = false) : ∀ u, Dropped ((run s ops).users u) := by
+  induction ops generalizing s with
+  | nil => exact h
+  | cons op ops ih =>
+    exact ih (dropped_step h op (hops op (by simp))) (fun o ho => hops o (by simp [ho]))
+
+/-! ### consequences of the invariant, per user -/
+
+theorem reap_entry_of_inv {now : Nat} {U : User} (h : UInv now U) (g : Nat) : (U.reap g).entry = U.entry := by
+  unfold User.reap
+  split
+  · next hg =>
+    cases he : U.entry with
+    | none => rfl
+    | some e =>
+      have : e.gen ≠ g := fun hgen => (h.genLt e he).2 (hgen ▸ hg)
+      simp [this]
+  · rfl
+
+theorem edges_of_inv {now : Nat} {U : User} (h : UInv now U) :
+    U.frames = specFrames U.processed ∧ U.flagsOf = specFlags U.processed ∧
+    (U.queue = [] → U.frames = specFrames U.issued ∧ U.flagsOf = specFlags U.issued) := by
+  refine ⟨h.frames, h.flags, fun hq => ?_⟩
+  have h1 : U.processed = U.issued := by
+    have := h.lost
+    rw [hq, List.append_nil] at this
+    exact this
+  exact ⟨h1 ▸ h.frames, h1 ▸ h.flags⟩
+
+theorem state_of_inv {now : Nat} {U : User} (h : UInv now U) (hq : U.Quiescent) :
+    U.flagsOf = specFlags U.issued ∧
+    (U.stateOf = .tracked ↔ U.flagsOf ≠ Flags.empty ∧ U.outcomes.getLast? = some .exists) ∧
+    (U.stateOf = .untracked ↔ U.flagsOf = Flags.empty) := by
+  cases he : U.entry with
+  | none =>
+    have hqu : U.queue = [] := by simp [User.queue, he]
+    refine ⟨((edges_of_inv h).2.2 hqu).2, ?_, ?_⟩ <;> simp [User.stateOf, User.flagsOf, he]
+  | some e =>
+    have hq' : e.pc = .idle ∧ e.queue = [] := by simpa [User.Quiescent, he] using hq
+    have hqu : U.queue = [] := by simp [User.queue, he, hq'.2]
+    have hi := h.idle e he hq'.1
+    refine ⟨((edges_of_inv h).2.2 hqu).2, ?_, ?_⟩
+    · simp only [User.stateOf, User.flagsOf, he]
+      constructor
+      · intro ht
+        have hne : e.flags ≠ Flags.empty := by
+          intro hf
+          have := hi.1.mp hf
+          simp [ht] at this
+        exact ⟨hne, (hi.2 hne).mp ht⟩
+      · intro ⟨hne, hl⟩
+        exact (hi.2 hne).mpr hl
+    · simp only [User.stateOf, User.flagsOf, he]
+      exact hi.1.symm
+
+theorem documented_delays :
+    delaySendFail = 10 ∧ delayTimeout = 10 ∧ delayError = 10 ∧ delayNotExists = 600 ∧ responseTimeout = 10 ∧
+    retryNetError = 10 ∧ retryNonExisting = 600 := by
+  decide
+
+theorem retry_of_inv {now : Nat} {U : User} (h : UInv now U) :
+    (∀ e t, U.entry = some e → e.retry = some t →
+        e.flags ≠ Flags.empty ∧ t.armedAt ≤ now ∧ (t.delay = 10 ∨ t.delay = 600)) ∧
+    U.fired + U.pending ≤ U.failed ∧
+    (∀ e, U.entry = some e → (e.pc = .sendAdd ∨ ∃ d, e.pc = .waitResp d) → e.flags ≠ Flags.empty) ∧
+    (∀ e, U.entry = some e → e.pc = .sendRemove → e.flags = Flags.empty ∧ e.retry = none) := by
+  refine ⟨fun e t he ht => ?_, h.count, h.pcAdd, h.pcRem⟩
+  have := h.retry e t he ht
+  rw [documented_delays.2.2.2.2.2.1, documented_delays.2.2.2.2.2.2] at this
+  exact this
+
+theorem retry_delay (U : User) (now : Nat) (env : Env) (e e' : Entry) (t : Timer)
+    (he : U.entry = some e) (he' : (U.worker now env).entry = some e') (ht : e'.retry = some t)
+    (hnew : e.retry ≠ some t) :
+    t.armedAt = now ∧
+    (((env = .sendFail ∨ env = .timeout ∨ env = .error) ∧ t.delay = 10) ∨ (env = .notExists ∧ t.delay = 600)) := by
+  obtain ⟨d1, d2, d3, d4, _⟩ := documented_delays
+  unfold User.worker at he'
+  rw [he] at he'
+  unfold User.take User.failAttempt User.succeed User.afterRemove User.loopOrExit User.exit at he'
+  simp only [] at he'
+  (repeat' split at he') <;> grind
+
+theorem retry_not_early (U : User) (now : Nat) (h : (U.retryFires now).issued ≠ U.issued) :
+    ∃ e t, U.entry = some e ∧ e.retry = some t ∧ t.armedAt + t.delay * 1024 ≤ now := by
+  unfold User.retryFires at h
+  split at h
+  · exact (h rfl).elim
+  · next e he =>
+    split at h
+    · exact (h rfl).elim
+    · next t ht =>
+      split at h
+      · next hd => exact ⟨e, t, he, ht, hd⟩
+      · exact (h rfl).elim
+
+theorem edge_cases (f : Flags) (r : Req) :
+    (f ≠ Flags.empty → r.apply f = Flags.empty → edge f r = [.removeUser]) ∧
+    (f = Flags.empty → r.apply f ≠ Flags.empty → edge f r = [.addUser]) ∧
+    (f = Flags.empty → r.apply f = Flags.empty → edge f r = []) ∧
+    (f ≠ Flags.empty → r.apply f ≠ Flags.empty → r.isRetry = false → edge f r = []) ∧
+    (f ≠ Flags.empty → r.isRetry = true → edge f r = [.addUser]) := by
+  refine ⟨?_, ?_, ?_, ?_, ?_⟩
+  · intro h1 h2; simp [edge, h1, h2]
+  · intro h1 h2; subst h1; simp [edge, h2]
+  · intro h1 h2; subst h1; simp [edge, h2]
+  · intro h1 h2 h3; simp [edge, h1, h2, h3]
+  · intro h1 h3
+    have hf : r.flag = Flags.empty := by simpa [Req.isRetry] using h3
+    have : r.apply f = f := by
+      unfold Req.apply
+      rw [hf]
+      cases f
+      simp [Flags.add, Flags.remove, Flags.empty]
+    simp [edge, this, h1, h3]
+
+theorem dropped_after_close (ops after : List Op) (hafter : ∀ op ∈ after, op.isCall = false) (u : Nat) :
+    Dropped ((run State.init (ops ++ [.serverClosed] ++ after)).users u) := by
+  rw [run_append, run_append]
+  apply dropped_run _ after hafter
+  intro v
+  exact Dropped.close _
+
 end AioslskVerif.Track
